@@ -224,9 +224,9 @@ class FoldHandler(Handler):
         s = norm(node)
         if s == "self.baseunits.dimensions.nodim":
             return self.tot
-        if s == "base.dimensions.nodim":
+        if s in ("base.dimensions.nodim", "get_unit_base(unitid, exp).dimensions.nodim"):
             return self.unit
-        if s == "not base.dimensions.nodim":
+        if s in ("not base.dimensions.nodim", "not get_unit_base(unitid, exp).dimensions.nodim"):
             return not self.unit
         return None
 
@@ -272,6 +272,31 @@ def r4_folding(ctx):
             else:
                 want = {"kept": False, "folded": True, "rebuilt": True}
             ctx.check(got == want, Q, "Quantity.__init__", f"folding cell {cell}", detail=got, expected=want)
+    # value-level complement: every factor multiplied into the number inside the folding block is the factor of one
+    # *dropped* unit - in particular not the total factor of all units, which also contains the kept ones
+    from ..flowexpr import Explorer, PathState
+    try:
+        ex_ = Explorer()
+        ps_ = ex_.block([blocks[0]], [PathState()])
+    except AnalysisError as e:
+        ps_ = None
+    if ps_ is not None:
+        factors = set()
+        for lst in list(ex_.iterations_all.values()) + [[(None, 0, ps_)]]:
+            for lp_, st_, its_ in lst:
+                for q in its_:
+                    for e in q.events[st_:]:
+                        if e.kind == "store" and e.extra == "self.magnitude":
+                            factors.add((lp_ is not None, norm(e.resolved)))
+        total = [f for inloop, f in factors if "self.baseunits.magnitude" in f or not inloop]
+        per_unit = [f for inloop, f in factors if inloop and "get_unit_base(" in f and "self.baseunits.magnitude" not in f]
+        if total:
+            ctx.violated(Q, "Quantity.__init__", "the factor folded into the number is the product of the dropped units only",
+                         detail=sorted(total), expected="self.magnitude *= get_unit_base(unitid, exp).magnitude for each dropped unit")
+        elif per_unit:
+            ctx.holds(Q, "Quantity.__init__", "the factor folded into the number is the product of the dropped units only", detail=sorted(per_unit)[:2])
+        else:
+            ctx.unrecognised(Q, "Quantity.__init__", "the factor folded into the number is the product of the dropped units only", f"writes to self.magnitude: {sorted(factors)[:2]}")
     s = norm(fn)
     ctx.form("atom = UnitSolver(baseunits)" in s and "self.magnitude *= atom.magnitude" in s and "self.baseunits = BaseUnits(atom.baseunits)" in s,
              Q, "Quantity.__init__", "a unit string contributes its numeric factor to the magnitude and its exponents to the units")
